@@ -126,6 +126,17 @@ CHECKS = {
    note='Trusted: Lean kernel, hand-written model, harness. Not proved (correspondence and dense oracle only): sparse*sparse product, indexed '
         'assignment, slicing, V assignment, size change, complex matrices, gemm/symv with sparse operands.',
    technique='Lean 4 proof (invariant + refinement to the dense image) over a hand-written model + op-sequence correspondence'),
+ 'C20': dict(
+   category='proof',
+   text='Lean theorems: the reduced state of a dense matrix rebuilds it (all shapes/typecodes); for every structurally valid sparse matrix the '
+        'triplet state rebuilds exactly the same compressed-column structure, explicit zeros included (no duplicate is summed); strided '
+        'buffer import puts item i*s0+j*s1 at entry (i,j) for any strides; the export counter equals the number of live views over any '
+        'export/release history. The real implementation is run through pickle (all protocols), copy/deepcopy, constructor copies, +x, '
+        'slicing, tofile/fromfile, memoryview export/aliasing and buffer import, with identity checks and the Lean import model.',
+   design_ref='DESIGN.md 5 C20',
+   note='Trusted: Lean kernel, models of Model/Serial.lean (tied by the harness), C16 sparse model. Strided 2-D sources beyond what the '
+        'standard library exports (NumPy absent) are covered by the theorem but not exercised on the implementation.',
+   technique='Lean 4 proof (round-trip laws, induction over export histories) + round-trip/differential runs on the implementation'),
 }
 REASONS = {}
 def main():
